@@ -70,7 +70,17 @@ func vpC01_O5() {
 	delta := vpBig("delta")
 	x := vpBig("x")
 	j := vpChoose("j", k+1) // index the tampering targets
-	switch vpChoose("tamper", 10) {
+	switch vpChoose("tamper", 12) {
+	case 10: // a hidden response (the secret key's included) shifted by a multiple of the group order:
+		// the verification equation still holds, the response leaves its range
+		vpAssume(!isDisc[j])
+		kk := vpIntRange("ordshift", -3, 3)
+		vpAssume(kk != 0)
+		proof.AResponses[j] = vpAddTo(proof.AResponses[j], new(big.Int).Mul(big.NewInt(int64(kk)), sk.Order))
+	case 11: // the same for the response of e
+		kk := vpIntRange("ordshift", -3, 3)
+		vpAssume(kk != 0)
+		proof.EResponse = vpAddTo(proof.EResponse, new(big.Int).Mul(big.NewInt(int64(kk)), sk.Order))
 	case 0:
 		vpAssume(delta.Sign() != 0)
 		proof.C = vpAddTo(proof.C, delta)
@@ -119,10 +129,24 @@ func vpC01_O5() {
 		proof.AResponses[j] = x
 	}
 
-	if !proof.Verify(pk, ctx, nonce, false) {
+	// a proof is accepted if either entry point accepts it: alone, or as a list of one
+	viaList := vpBool("verifiedAsList")
+	if viaList {
+		if !(ProofList{proof}).Verify([]*gabikeys.PublicKey{pk}, ctx, nonce, false, nil) {
+			return
+		}
+	} else if !proof.Verify(pk, ctx, nonce, false) {
 		return
 	}
 	vpReach("some tampered proof is still accepted")
+	// every response of an accepted proof lies inside the range the protocol allows
+	maxA := new(big.Int).Sub(new(big.Int).Lsh(big.NewInt(1), pk.Params.LmCommit+1), big.NewInt(1))
+	maxE := new(big.Int).Sub(new(big.Int).Lsh(big.NewInt(1), pk.Params.LeCommit+1), big.NewInt(1))
+	inRange := proof.EResponse.Sign() >= 0 && proof.EResponse.Cmp(maxE) <= 0
+	for _, r := range proof.AResponses {
+		inRange = inRange && r.Sign() >= 0 && r.Cmp(maxA) <= 0
+	}
+	vpAssert("accepted proof: every response lies inside its range", inRange)
 	for i, v := range proof.ADisclosed {
 		vpAssert("accepted proof: disclosed index is a real attribute index", i >= 1 && i <= k)
 		if i < 1 || i > k {
